@@ -29,12 +29,16 @@ PROPERTY = "C15"
 LEVEL = "exploration"
 
 import rasterio  # noqa: E402
+from rasterio._env import get_gdal_config  # noqa: E402
 import tifffile  # noqa: E402
 
 from odc.geo.cog import to_cog, write_cog, write_cog_layers  # noqa: E402
 from odc.geo.cog._shared import adjust_blocksize, norm_blocksize, yaxis_from_shape  # noqa: E402
 from odc.geo.geobox import GeoBox  # noqa: E402
 from odc.geo.xr import wrap_xr, xr_coords  # noqa: E402
+
+READDIR = "GDAL_DISABLE_READDIR_ON_OPEN"
+os.environ.pop(READDIR, None)  # the ambient GDAL configuration is a dimension of s8; everywhere else it is GDAL's default
 
 logging.getLogger("tifffile").setLevel(logging.CRITICAL)
 logging.getLogger("rasterio").setLevel(logging.CRITICAL)
@@ -355,9 +359,31 @@ def inspect(blob, want_bands, A, exact, epsg, nodata, levels, blocksize, r: R, w
                        f"{int((g != wo).sum()) if g.shape == wo.shape else 'all'} values differ")
 
 
+@contextmanager
+def ambient_env(v):
+    """Ambient GDAL configuration in force while the writer runs (an outer rasterio.Env, as a caller tuned for cloud
+    reads would have). Asserts that the setting is really seen by GDAL inside and is gone again outside, so it can
+    neither be ineffective nor leak into the reader or into later cases of the same worker."""
+    if get_gdal_config(READDIR, normalize=False) is not None or rasterio.env.hasenv():
+        raise RuntimeError(f"GDAL environment not pristine before the case: {get_gdal_config(READDIR, normalize=False)!r}")
+    if v == "unset":
+        yield
+    else:
+        with rasterio.Env(**{READDIR: v}):
+            if get_gdal_config(READDIR, normalize=False) != v:
+                raise RuntimeError(f"ambient {READDIR}={v} not in force: {get_gdal_config(READDIR, normalize=False)!r}")
+            yield
+            if get_gdal_config(READDIR, normalize=False) != v:
+                raise RuntimeError(f"ambient {READDIR}={v} was not restored by the writer: "
+                                   f"{get_gdal_config(READDIR, normalize=False)!r}")
+    if get_gdal_config(READDIR, normalize=False) is not None or rasterio.env.hasenv():
+        raise RuntimeError(f"ambient {READDIR} leaked out of the case: {get_gdal_config(READDIR, normalize=False)!r}")
+
+
 def run_write(r: R, what, xx, data, layout, A, exact, epsg, nd_want, *, dest, api="write_cog", accessor=False,
-              ovl=None, ext=None, blocksize=None, cls=None, **kw):
-    """Write through the real API into memory or a fresh temporary directory, then judge."""
+              ovl=None, ext=None, blocksize=None, cls=None, ambient="unset", **kw):
+    """Write through the real API into memory or a fresh temporary directory (under the ambient GDAL configuration),
+    then judge with readers opened outside that configuration."""
     yx = bands_of(data, layout).shape[1:]
     want = bands_of(data, layout)
     ext_b = None
@@ -372,25 +398,29 @@ def run_write(r: R, what, xx, data, layout, A, exact, epsg, nd_want, *, dest, ap
         kw["blocksize"] = blocksize
     td = None
     try:
-        if dest == "mem":
-            if api == "write_cog_layers":
-                blob = write_cog_layers([xx, *ext], **kw)
-            elif ext is not None:
-                blob = xx.odc.to_cog(overviews=ext, **kw) if accessor else to_cog(xx, overviews=ext, **kw)
+        with ambient_env(ambient):
+            if dest == "mem":
+                if api == "write_cog_layers":
+                    blob = write_cog_layers([xx, *ext], **kw)
+                elif ext is not None:
+                    blob = xx.odc.to_cog(overviews=ext, **kw) if accessor else to_cog(xx, overviews=ext, **kw)
+                else:
+                    blob = xx.odc.to_cog(**kw) if accessor else to_cog(xx, **kw)
             else:
-                blob = xx.odc.to_cog(**kw) if accessor else to_cog(xx, **kw)
+                td = tempfile.mkdtemp(prefix="vf-c15-")
+                path = os.path.join(td, "out.tif")
+                if api == "write_cog_layers":
+                    out = write_cog_layers([xx, *ext], path, **kw)
+                elif ext is not None:
+                    out = xx.odc.write_cog(path, overviews=ext, **kw) if accessor else write_cog(xx, path, overviews=ext, **kw)
+                else:
+                    out = xx.odc.write_cog(path, **kw) if accessor else write_cog(xx, path, **kw)
+        # judged outside the ambient configuration: the readers run in GDAL's default environment
+        if dest == "mem":
             if not isinstance(blob, bytes):
                 r.fail(f"return:not-bytes:{cls['pix']}", f"{what}: returned {type(blob).__name__}")
                 return
         else:
-            td = tempfile.mkdtemp(prefix="vf-c15-")
-            path = os.path.join(td, "out.tif")
-            if api == "write_cog_layers":
-                out = write_cog_layers([xx, *ext], path, **kw)
-            elif ext is not None:
-                out = xx.odc.write_cog(path, overviews=ext, **kw) if accessor else write_cog(xx, path, overviews=ext, **kw)
-            else:
-                out = xx.odc.write_cog(path, **kw) if accessor else write_cog(xx, path, **kw)
             if out is None or str(out) != path or not os.path.isfile(path):
                 r.fail(f"return:path:{cls['pix']}", f"{what}: returned {out!r}, asked to write {path}")
                 return
@@ -754,6 +784,47 @@ def run_s6b(case):
 
 
 # ---------------------------------------------------------------------------------------------------------
+# s8: ambient GDAL configuration (outer rasterio.Env) while writing: sibling-file discovery switched off / on
+# ---------------------------------------------------------------------------------------------------------
+AMBIENT = ("unset", "EMPTY_DIR", "TRUE", "FALSE")
+S8_SHAPES = ((17, 31), (33, 50), (520, 600))
+
+
+def gen_s8(tier):
+    def g():
+        for amb in AMBIENT:
+            for yx in S8_SHAPES:
+                for layout in S3_LAYOUTS:
+                    for windowed in (False, True):
+                        for dest in ("mem", "file"):
+                            for okind in ("plain", "computed"):  # product A: no / computed overviews
+                                yield ("s8", amb, yx, layout, windowed, dest, okind, "write_cog", 0)
+                            for api in ("write_cog", "write_cog_layers"):  # product B: supplied overviews
+                                for n_ovr in (0, 1, 2):
+                                    yield ("s8", amb, yx, layout, windowed, dest, "external", api, n_ovr)
+
+    return g
+
+
+def run_s8(case):
+    _, amb, yx, layout, windowed, dest, okind, api, n_ovr = case
+    r = R(outcome=f"s8:readdir={amb}:{okind}:{api}:n{n_ovr}:{side_class(yx)}:win{int(windowed)}:{dest}")
+    xx, data, A, exact, epsg, nodata, kw = build(yx, layout, "int16", "nu", "32633", "special", zeros=True)
+    if okind == "external":
+        ext, ovl, path, apik = sub_overviews(xx, layout, "int16", n_ovr, zeros=True), "ext", f"layers:{dest}", api + "+overviews"
+    else:
+        ext, ovl, path, apik = None, ((2, 4) if okind == "computed" else ()), ("2pass" if okind == "computed" else "1pass") + f":{dest}", api
+    cls = mkcls(yx, layout, "nu", "32633", "int16", "special", "attr", path, apik, 16, ovl)
+    if okind == "external":
+        cls["st"] = f"block16:{shape_class(yx)}:ext{n_ovr}"
+    for k in cls:  # every key of this slice names the ambient setting
+        cls[k] += f":readdir={amb}"
+    run_write(r, str(case), xx, data, layout, A, exact, epsg, nodata, dest=dest, api=api, ext=ext,
+              ovl=None if ext is not None else ovl, blocksize=16, cls=cls, ambient=amb, use_windowed_writes=windowed, **kw)
+    return r
+
+
+# ---------------------------------------------------------------------------------------------------------
 # s7: the block-size / layout helpers on a complete small integer domain
 # ---------------------------------------------------------------------------------------------------------
 S7_N = 600
@@ -839,6 +910,9 @@ def slices(tier):
                  "shapes around the 512 px threshold x layouts x block sizes x overview levels {default, [], [2]} x windowed x destination"),
         e1.Slice("s6b-external-overviews-512", gen_s6b(tier), run_s6b,
                  "shapes around / above 512 px x layouts x number of supplied overviews x API x block size x windowed x destination"),
+        e1.Slice("s8-ambient-gdal-config", gen_s8(tier), run_s8,
+                 "ambient GDAL_DISABLE_READDIR_ON_OPEN {unset, EMPTY_DIR, TRUE, FALSE} (outer rasterio.Env during the write, readers "
+                 "outside it) x shapes x layouts x windowed x destination x {no / computed overviews, supplied overviews x API x count}"),
         e1.Slice("s7-helpers", gen_s7(tier), run_s7,
                  "adjust_blocksize on [1,600]x[0,600], norm_blocksize on [1,130]^2, yaxis_from_shape on shapes x layouts", shards=32),
     ]
@@ -858,6 +932,7 @@ def main(ctx):
         nodata=["none", "zero", "special(max / -128 / -9999 / 1.5e300)", "nan (floats)"], nodata_source=["attr", "kwarg", "both"],
         blocksizes=S3_BLOCKS, overview_levels=[list(o) if o is not None else None for o in s3_ovls(ctx.tier)],
         intermediate_compression=list(INTERMEDIATE), ovr_blocksize=[None, 64, 256], external_overviews=[0, 1, 2],
+        ambient_gdal_config={READDIR: list(AMBIENT)}, s8_shapes=S8_SHAPES,
         s6_shapes=S6_SHAPES, s6b_shapes=S6B_SHAPES, s6_overview_levels=[None, [], [2]],
         data_patterns=["ramp (s1, s2, s4, s5)", "ramp with an all-zero 16*2^k corner in every band + scattered valid zeros "
                        "(s3, s4b, s6, s6b: the slices that vary windowed writes)"], max_image_side_outside_s6=64, helper_domain=S7_N,
@@ -872,6 +947,9 @@ def main(ctx):
         "16, not larger than the image side); overview IFDs only need tile sizes that are multiples of 16",
         "images with exactly one side under 512 px may have either no overviews or the default levels (the statement does not "
         "decide which side counts)",
+        "the ambient GDAL configuration is varied only in s8 and only for GDAL_DISABLE_READDIR_ON_OPEN (set through an outer "
+        "rasterio.Env around the write; asserted in force inside and absent outside); every other slice runs with GDAL defaults "
+        "(the variable is removed from os.environ at import)",
         "content of computed overviews is not compared (the property constrains their number and size); supplied overviews must be "
         "stored as given",
     ]
